@@ -15,7 +15,7 @@ REQUIRED = ['C09.wrap_range', 'C09.wrap_periodic', 'C09.wrap_spec', 'C09.ft_shap
             'C09.ft_hilbert_scale', 'C09.ft_nht_scale', 'C09.ft_nht_scale_any', 'C09.ft_quad_scale', 'C09.ft_quad_scale_needs_envelope',
             'C09.ft_nht_nonoscillatory', 'C09.ft_quad_nonoscillatory', 'C09.ft_nht_amplitude_is_envelope', 'C09.ft_hilbert_amplitude_finite',
             'C09.ft_nht_no_envelope_phase', 'C09.amplitudeNormalise_no_envelope',
-            'C09.amplitudeNormalise_scale_free', 'C09.amplitudeNormalise_sign', 'C09.amplitudeNormalise_sign_needs_posEnv', 'C09.quad_unit_modulus',
+            'C09.amplitudeNormalise_scale_free', 'C09.amplitudeNormalise_no_absolute_threshold', 'C09.amplitudeNormalise_sign', 'C09.amplitudeNormalise_sign_needs_posEnv', 'C09.quad_unit_modulus',
             'C09.roundtrip_interior', 'C09.roundtrip_edges', 'C09.roundtrip_locally_const', 'C09.roundtrip_const']
 TRUSTED = [
     'PARTIAL: sinusoid recovery accuracy (frequency, amplitude, phase within tolerance) is a statement about the FFT '
